@@ -276,6 +276,39 @@ def run(ck):
                                   "after %s on ONE configuration object, %s gives %s different from the pristine configuration's"
                                   % (list(order[:order.index(op)]), op, bad), {"kind": "shared", "nodes": vn, "order": list(order), "at": op})
                     break
+    # ---- a consumer that mutates a published sweep sequence in place: the configuration's own value list must not be the
+    #      object that reaches the context (identities of the next inspect / run on the same object would follow the mutation)
+    from harness.lib import components as HC
+    mut_nodes = [{"processor": "FloatValueDataSource", "parameters": {"value": 1.0}},
+                 {"processor": "FloatMultiplyOperation",
+                  "derive": {"parameter_sweep": {"parameters": {"factor": "t"}, "variables": {"t": [3.0, 1.0, 2.0]}, "collection": "FloatDataCollection"}}},
+                 {"processor": HC.VerifSortInPlaceContextProcessor}]
+    for vi, mn in enumerate((mut_nodes, [mut_nodes[0], dict(mut_nodes[1], derive={"parameter_sweep": dict(mut_nodes[1]["derive"]["parameter_sweep"],
+                                                                                                        variables={"t": {"values": [3.0, 1.0, 2.0]}})}), mut_nodes[2]])):
+        try:
+            ref = G.observe(mn, runs=1)
+        except Exception as ex:  # noqa
+            ck.corr_problem("in-place-mutation scenario: the pristine configuration could not be observed", repr(ex)[:300])
+            continue
+        for order in (("pipeline", "payload", "pipeline"), ("pipeline", "pipeline", "canonical", "payload")):
+            try:
+                got = G.observe_shared(mn, order)
+            except Exception as ex:  # noqa
+                ck.fail_input("C04:one-object:operation-fails-after-another:in-place-consumer",
+                              "operations %s on one configuration object whose last node sorts t_values in place: %r" % (list(order), ex),
+                              {"kind": "shared-mutating-consumer", "variant": vi, "order": list(order)})
+                continue
+            shared_runs += 1
+            evaluations += len(order)
+            for oi, (op, ids) in enumerate(got):
+                bad = [f for f, rf in (("uuids", "uuids"), ("nodesem", "nodesem"), ("semid", "semid"), ("cfgid", "cfgid"), ("plid", "plid"), ("run_plid", "plid"))
+                       if f in ids and ids[f] is not None and ids[f] != ref[rf]]
+                if bad:
+                    ck.fail_input("C04:one-object:identity-depends-on-earlier-calls:in-place-consumer:" + ",".join(bad),
+                                  "a node sorts the published t_values in place; after %s on ONE configuration object, %s gives %s different from the "
+                                  "pristine configuration's" % (list(order[:oi]), op, bad),
+                                  {"kind": "shared-mutating-consumer", "variant": vi, "order": list(order), "at": oi})
+                    break
     stats["one_object_sequences"] = shared_runs
 
     # ---- one container object referenced twice inside a node's parameters (what a re-used YAML anchor loads to) vs equal copies
@@ -519,6 +552,10 @@ def replay(obj):
             print("  after", op, "->", "DIFFERENT " + ",".join(bad) if bad else "same as pristine")
             rc = rc or bool(bad)
         return int(rc)
+    if r.get("kind") == "shared-mutating-consumer":
+        print("configuration: source, FloatMultiplyOperation swept over t = [3.0, 1.0, 2.0] (variant %s), a context processor sorting t_values in place;"
+              " operations %s on one configuration object; identities differ from the pristine configuration's at step %s" % (r.get("variant"), r.get("order"), r.get("at")))
+        return 1
     if r.get("kind") == "shared-orchestrator":
         import tempfile as _tf
         d = shared_orchestrator_problem(_tf.mkdtemp(prefix="c04r_"))
